@@ -9,6 +9,9 @@ THEOREMS = ["PQ.C03." + t for t in (
     "takeRecord_stripe", "splitRecords_stripe", "assemble_splitRecords", "stripe_injective", "nonnull_count", "required_only",
     "bitsLen_spec", "bitsLen_min", "bitsLen_least", "maxDef_le_length", "maxRep_le_maxDef", "levels_fit")]
 
+EXTRA_MODULES = ['PQ.Lemmas.Records']
+EXTRA_THEOREMS = ['PQ.Records.record_injective', 'PQ.Records.record_injective_cols', 'PQ.Records.skeleton_agree', 'PQ.Records.events_stripe', 'PQ.Records.sibling_events_agree', 'PQ.Records.sibling_count_agree', 'PQ.Records.record_roundtrip', 'PQ.Records.record_roundtrip_unique', 'PQ.Records.records_roundtrip', 'PQ.Records.colStream_levels', 'PQ.Records.colStream_declared', 'PQ.Records.colsOf_eq']
+
 
 def run(chk):
     thorough = chk.tier == "thorough"
@@ -17,7 +20,7 @@ def run(chk):
         cov["steps"] = rebuild_tools(chk.log)
         cov["steps"]["zoo"] = build_zoo(chk.log)
         build_pqh(chk.log)
-        pr = proof_stage(chk, MODULE, THEOREMS)
+        pr = proof_stage(chk, MODULE, THEOREMS + EXTRA_THEOREMS, EXTRA_MODULES, audit_imports=EXTRA_MODULES)
     pair = Pair(chk.log)
     zs = filelevel.load_zoos(pair, workloads.ZOOS)
     raw, meta = workloads.file_cases(chk, zs, thorough, per_zoo_cap=(4000 if thorough else 700))
